@@ -6,6 +6,10 @@ import re
 
 # what had to be added to the machinery before the change was caught (empty: caught as built)
 NOTES = {
+    "C02-m7": "C02 first missed it (C07 mode `shared` and C11 caught it as built): `obj` part 5 of MC_Sem - an object with assertions used on its own first, then extended",
+    "C13-m7": "first missed (programs without a directory were outside the decided domain): family `virt` (-e / standard input) in Imports.tla",
+    "C10-m7": "as built (same mechanism as C10-m2, found again independently)",
+    "C11-m7": "as built (same mechanism as C11-m1, found again independently)",
     "C01-m1": "C01 first missed (no ill-formed UTF-8 inside string bodies): universe `utf8` added",
     "C01-m2": "C01 first missed: universe `fmt` (directive x flag x width/precision x argument list) added",
     "C01-m3": "C01 first missed: universe `scope` (the static-analysis universe of MC_Static evaluated through the pipeline) added; C09 caught it as built",
